@@ -252,8 +252,13 @@ def gen_sec_case(r):
     run_as = r.weighted([("root", 4), ("nobody", 4), ("suid", 2)])
     alt = OTHER if run_as == "suid" else r.choice([0, 0, OTHER])
     dirsel = r.weighted([("builtin", 3), ("env", 3), ("env-decoy", 2)])
-    return {"kind": "sec", "prog": "pdsh" if r.chance(3, 4) else "pdcp", "forced": [], "forced_via": "M", "files": fl, "order": None, "chain": chain,
+    case = {"kind": "sec", "prog": "pdsh" if r.chance(3, 4) else "pdcp", "forced": [], "forced_via": "M", "files": fl, "order": None, "chain": chain,
             "run_as": run_as, "alt": alt, "dirsel": dirsel}
+    if r.chance(1, 8):
+        # the module directory lies on a second file system whose root has the inode number of "/"; above the mount point
+        # stands a world-writable directory without the sticky bit: the walk up the ancestors must cross the mount point
+        case["mounted"] = True
+    return case
 
 
 # ------------------------------------------------------------------ one case through implementation, model and S
@@ -546,6 +551,7 @@ def run(ctx):
                 "the observed enumeration order and judged by an independent specification; distinct = distinct model input lines",
         "samples": samples, "input_distribution": dist, "corpus_cases": ncorpus, "determinism_groups": ndet, "fixtures_compiled": eng.ncompiled,
         "disagreements": nbad})
+    eng.unmount()
     return ctx.finish(cov, ["dlopen/dlsym, stat and readdir are the system's; the model takes their results as inputs (stat data and enumeration order are read back from the file system)",
                             "time-of-check/time-of-use between stat and dlopen is outside the model",
                             "the built-in module directory of the rebuilt binary is set per run by harness/mod_cfg.c (stands in for the generated config.c)",
